@@ -318,7 +318,9 @@ Extended(ctx, vm, op) ==
                          ELSE [vm EXCEPT !.stack = Push(PopN(s, 2), Encode(IF op = OP_DIV THEN IDiv(a, b) ELSE IMod(a, b)))])
                    ELSE \* shifts
                         IF IsNeg(b) THEN Unspec(vm)
-                        ELSE IF ToInt(Mag(b)) > 24 THEN Unspec(vm)       \* beyond 64-bit results: not compared
+                        ELSE IF ToInt(Mag(b)) > 63 THEN Fail(vm, "ANY")  \* the tool refuses counts above 63
+                        \* a left shift whose result does not fit 63 bits is not compared (the tool computes in 64-bit integers)
+                        ELSE IF op = OP_LSHIFT /\ NumBits(Mag(a)) + ToInt(Mag(b)) > 62 THEN Unspec(vm)
                         ELSE IF op = OP_LSHIFT THEN [vm EXCEPT !.stack = Push(PopN(s, 2), Encode(IMul(a, MkInt(FALSE, Pow2(ToInt(Mag(b)))))))]
                         ELSE IF IsNeg(a) THEN Unspec(vm)                 \* arithmetic vs truncating shift of negatives
                         ELSE [vm EXCEPT !.stack = Push(PopN(s, 2), Encode(IDiv(a, MkInt(FALSE, Pow2(ToInt(Mag(b)))))))]
